@@ -403,6 +403,85 @@ fn utf8_ok(b: &[u8]) -> bool {
     std::str::from_utf8(b).is_ok()
 }
 
+/// every documented name, built from the boards the public API accepts
+fn documented() -> Vec<Vec<u8>> {
+    let k = known();
+    let digits = b"0123456789ABCDEFGHIJKLMNOPQRSTUV";
+    let mut v: Vec<Vec<u8>> = Vec::new();
+    for b in &k.a16 {
+        for (letter, n) in [(b'B', 16usize), (b'C', 32)] {
+            for d in &digits[..n] {
+                let mut x = vec![letter];
+                x.extend(b.name().as_bytes());
+                x.push(*d);
+                v.push(x);
+            }
+        }
+    }
+    for b in &k.pwb {
+        let mut x = b"PC".to_vec();
+        x.extend(b.name().as_bytes());
+        v.push(x);
+    }
+    for n in ["ATAT", "TRBA", "MCVX", "SEQ2", "CBF1", "CBF2", "CBF3", "CBF4"] {
+        v.push(n.as_bytes().to_vec());
+    }
+    v
+}
+
+/// integer literals of the map sources (comments included -- over-approximation is harmless): candidates for arm boundaries
+fn mined_literals() -> Vec<u64> {
+    let repo = std::env::var("VERIF_REPO").unwrap_or_else(|_| "/repo".to_string());
+    let mut out = Vec::new();
+    for f in ["detector/src/alpha16/aw_map.rs", "detector/src/padwing/map.rs"] {
+        let Ok(src) = std::fs::read_to_string(format!("{repo}/{f}")) else { continue };
+        let b = src.as_bytes();
+        let mut i = 0;
+        while i < b.len() {
+            let prev_ident = i > 0 && (b[i - 1].is_ascii_alphanumeric() || b[i - 1] == b'_');
+            if b[i].is_ascii_digit() && !prev_ident {
+                let mut v: u64 = 0;
+                let mut ok = true;
+                while i < b.len() && (b[i].is_ascii_digit() || b[i] == b'_') {
+                    if b[i] != b'_' {
+                        v = v.saturating_mul(10).saturating_add((b[i] - b'0') as u64);
+                        if v > u32::MAX as u64 {
+                            ok = false;
+                        }
+                    }
+                    i += 1;
+                }
+                while i < b.len() && (b[i].is_ascii_alphanumeric() || b[i] == b'_') {
+                    i += 1;
+                }
+                if ok {
+                    out.push(v);
+                }
+            } else {
+                i += 1;
+            }
+        }
+    }
+    out.sort();
+    out.dedup();
+    out
+}
+
+/// cheap fingerprint of a run's maps: the complete wire table and one pad of every board
+fn run_fingerprint(run: u32) -> u64 {
+    let k = known();
+    let mut h = 0u64;
+    for &b in &k.a16 {
+        for ch in 0..32u8 {
+            h = hash_step(h, wire_code(run, b, ch));
+        }
+    }
+    for &b in &k.pwb {
+        h = hash_step(h, pad_code(run, b, 0, 1));
+    }
+    h
+}
+
 pub fn run(tier: &str, seed: u64, s: &mut Sink) {
     let thorough = tier == "thorough";
     let mut r = Rng::new(seed ^ 0xC08);
@@ -516,18 +595,57 @@ pub fn run(tier: &str, seed: u64, s: &mut Sink) {
         }
     }
 
-    // ---- run numbers
+    // ---- every documented name and its one-character neighbours at every position
+    for base in documented() {
+        put(s, format!("nm {}", hex(&base)), "name:documented", true);
+        for i in 0..base.len() {
+            let c = base[i];
+            let mut alts: Vec<u8> = vec![c.wrapping_sub(1), c.wrapping_add(1)];
+            if c.is_ascii_alphabetic() {
+                alts.push(c ^ 0x20); // case flipped
+            }
+            // (the digit position of B/C names is swept over every character by the adc-all-digits blocks)
+            for a in alts {
+                if a < 0x80 && a != c {
+                    let mut v = base.clone();
+                    v[i] = a;
+                    put(s, format!("nm {}", hex(&v)), "name:one-char-neighbour", true);
+                }
+            }
+        }
+    }
+
+    // ---- run numbers: every arm boundary (mined from the source text and found by scanning) +-2, a stride,
+    //      the simulation run and its neighbours, powers of two, random u32
     let mut runs: Vec<u32> = Vec::new();
+    let around = |runs: &mut Vec<u32>, b: u64| {
+        for d in -2i64..=2 {
+            let x = b as i64 + d;
+            if x >= 0 && x <= u32::MAX as i64 {
+                runs.push(x as u32);
+            }
+        }
+    };
+    let mined = mined_literals();
+    for &l in &mined {
+        if thorough || l >= 100 {
+            around(&mut runs, l);
+        }
+    }
+    // scan 0..=20000 with a cheap fingerprint (complete wire table + one pad per board): a change is an arm boundary
+    let mut last = run_fingerprint(0);
+    for run in 1..=20000u32 {
+        let f = run_fingerprint(run);
+        if f != last {
+            around(&mut runs, run as u64);
+            last = f;
+        }
+    }
     if thorough {
         runs.extend(0..=20000u32);
     } else {
-        for b in [0u32, 2724, 2941, 4418, 5000, 10418, 20000] {
-            for d in -2i64..=2 {
-                let x = b as i64 + d;
-                if x >= 0 {
-                    runs.push(x as u32);
-                }
-            }
+        for b in [0u64, 2724, 2941, 4418, 5000, 10418, 20000] {
+            around(&mut runs, b);
         }
         runs.extend((0..=20000u32).step_by(997));
     }
@@ -535,8 +653,41 @@ pub fn run(tier: &str, seed: u64, s: &mut Sink) {
     for _ in 0..(if thorough { 300 } else { 20 }) {
         runs.push(r.next() as u32);
     }
+    runs.sort();
+    runs.dedup();
+    let mut classes: Vec<(String, u32)> = Vec::new(); // first run of each distinct complete table
     for &run in &runs {
-        put(s, format!("run {run}"), "run:tables", run >= 2941);
+        let case = format!("run {run}");
+        let o = observe_line(&case).unwrap();
+        if !classes.iter().any(|(c, _)| *c == o) {
+            classes.push((o.clone(), run));
+        }
+        s.put(&case, &o, "run:tables", o.starts_with("ok"));
+    }
+    // for one run of every distinct table: every board x every channel (wires), every board x chip x 4 channels (pads),
+    // installed or not
+    for (o, run) in &classes {
+        if !o.starts_with("ok") {
+            continue;
+        }
+        for b in &k.a16 {
+            for ch in 0..32 {
+                put(s, format!("wpos {run} {} {ch}", hex(b.name().as_bytes())), "map:wire-all-rows", true);
+            }
+        }
+        for b in &k.pwb {
+            for a in 0..4 {
+                for ch in [1, 36, 37, 72] {
+                    put(s, format!("ppos {run} {} {a} {ch}", hex(b.name().as_bytes())), "map:pad-all-boards", true);
+                }
+            }
+        }
+        let b = k.pwb[r.below(k.pwb.len() as u64) as usize];
+        for a in 0..4 {
+            for ch in 1..=72 {
+                put(s, format!("ppos {run} {} {a} {ch}", hex(b.name().as_bytes())), "map:pad-all-channels", true);
+            }
+        }
     }
     // individual lookups
     let n_pos = if thorough { 20000 } else { 1500 };
